@@ -71,6 +71,12 @@ def render(case: dict) -> Tuple[str, List[str], Dict[str, str]]:
             lines += [f"{n}, other_{i} = {i}, 2"]
             names.append(n)
             uses.append(f"print({n})")
+        elif k == "initclass":
+            cls = f"Keeper{i}"
+            lines += [f"class {cls}:", "    def __init__(self, start):", f"        self.total = start + {i}", "",
+                      "    def __repr__(self):", f"        return f'{cls}({{self.total}})'", "", ""]
+            names.append(f"{cls}.__init__")
+            uses.append(f"print({cls}(3).total, repr({cls}(4)))")
         else:
             cls = f"Holder{i}"
             body = {
